@@ -105,8 +105,10 @@ def run(ctx):
     ctx.traces_validated += int(res.get("evaluations") or 0)
 
     # 5. binding self-test: corrupted expected outcomes must all be flagged by the comparison
-    if not res.get("violations"):
-        selftest(ctx, claimed)
+    #    (drawn from the cases on which specification and code agreed)
+    bad_ids = set((v.get("replay") or {}).get("id") for v in res.get("violations") or [])
+    if len(res.get("violations") or []) < 50:       # the driver keeps at most 50: beyond that agreement is unknown
+        selftest(ctx, [c for c in claimed if c["id"] not in bad_ids])
 
 
 def corrupt(c, rnd):
